@@ -238,6 +238,7 @@ impl Property for C23 {
                 if *a != b {
                     let dc = super::c10::diff_class(a, &b);
                     let q = co_qual(g, co);
+                    let q = if q.is_empty() && sv != Sv::Slg { env_qual(g, &case.pg.program) } else { q };
                     out.fail(
                         format!("{}:logged-differs:{}{}", sv.name(), dc, if dc.contains("repeated-var") { "" } else { q }),
                         format!("[{}] goal `{}`: `{}` on the original program (through the wrapper), `{}` on the logged program\n--- original\n{}--- logged\n{}", sv.name(), lg.text, a, b, low.text, logged),
